@@ -43,6 +43,10 @@ import (
 // worldRng is a splitmix64 generator implementing world.Rng.
 type worldRng struct{ s uint64 }
 
+// worldStrictEpochOrder makes checkSignaturesForAddress insist on newest-epoch-first order
+// (set by the C07 scenario; the self-test tolerates the map-order defect D2).
+var worldStrictEpochOrder bool
+
 // reporter is the part of *testing.T the model checks need; simulation scenarios pass their own.
 type reporter interface {
 	Errorf(format string, args ...any)
@@ -1273,7 +1277,7 @@ func checkSignaturesForAddress(t reporter, handler func(*fasthttp.RequestCtx), w
 			if len(got) != len(want) {
 				t.Fatalf("%s: %d entries, model %d", what, len(got), len(want))
 			}
-			if len(worlds) > 1 {
+			if len(worlds) > 1 && !worldStrictEpochOrder {
 				// TODO(server defect D2, multiepoch-getSignaturesForAddress.go:198): the handler
 				// ranges over the map epoch -> transactions, so with more than one epoch the
 				// per-epoch groups come out in random order instead of newest epoch first. Until
